@@ -13,7 +13,7 @@
    uuid contains no '|'); the uuid4 of a go_to row is a counter.  Errors: every exception of
    the Python ([IndexError], [NotImplementedError], [TypeError], [ValueError],
    pydantic [ValidationError], [KeyError]) is [Err ECrash]; [EFuel] and [EInternal] are
-   never produced on any input (ToRowsFacts: fuel_suffices, no_internal). *)
+   never produced on any input (RowIdFacts: to_rows_tmp_err, to_rows_err, remap_total). *)
 From Coq Require Import List NArith Bool String Ascii Arith.
 From RPFT Require Import Base.Sexp Base.PyStr Base.Result Gen.Tables.
 Import ListNotations.
@@ -319,18 +319,26 @@ Definition initiate_row_models (n : node) (sn : str) (pe : edge tid) : res (list
 Definition last_row_id (n : node) (sn : str) : tid :=
   TNode (n_uuid n) (sub_short sn (pred (List.length (n_actions n)))).
 
-(* SwitchRouter.get_exit_edge_pairs *)
+(* SwitchRouter.get_exit_edge_pairs.
+   The argument of the case that is written into the condition: arguments[1] (the group name) in
+   a group split, arguments[0] otherwise.  A tree with the repair of finding
+   has_group-case-outside-group-split (regenerated probe [has_group_case_by_name]) takes
+   arguments[1] for every has_group case, whatever the operand. *)
+Definition has_group_type : str := lit "has_group".
+Definition cond_arg (r : srouter) (k : rcase) : option pv :=
+  if str_eqb (sw_operand r) groups_operand || (has_group_case_by_name && str_eqb (k_type k) has_group_type)
+  then match case_arg1 k with Some s => Some (PS s) | None => None end
+  else case_arg0 k.
+
 Definition case_cond (r : srouter) (k : rcase) (c : category) : res cond :=
-  if str_eqb (sw_operand r) groups_operand then
-    match case_arg1 k with Some s => Ok (value_cond s) | None => Err ECrash end
-  else if str_eqb (sw_operand r) child_status_operand then
-    match case_arg0 k with
+  if str_eqb (sw_operand r) groups_operand || str_eqb (sw_operand r) child_status_operand then
+    match cond_arg r k with
     | Some v => Ok {| cd_value := v; cd_variable := []; cd_type := []; cd_name := [] |}
     | None => Err ECrash
     end
   else
     do v <- (if mem_str (k_type k) no_args_tests then Ok (PS [])
-             else match case_arg0 k with Some v => Ok v | None => Err ECrash end);
+             else match cond_arg r k with Some v => Ok v | None => Err ECrash end);
     Ok {| cd_value := v; cd_variable := sw_operand r; cd_type := k_type k; cd_name := c_name c |}.
 
 Definition mem_u (u : U) (l : list U) : bool := existsb (ueqb u) l.
@@ -605,14 +613,29 @@ Fixpoint close_sheet (l : list (list (str * pv))) : option (list (list (str * up
 Definition export_strip (numbered : bool) (nodes : list node) : res (option (list (list (str * upv)))) :=
   do sh <- export strip_excluded numbered nodes; Ok (close_sheet sh).
 
-(* the domain restriction of C17_no_uuid_in_sheet: has_group cases (the only cases that carry
-   a uuid) occur only in routers that split by group membership *)
+(* the guard of C17_no_uuid_in_sheet.  A case that carries a group uuid (the only uuid-typed
+   argument of the flow spec) must not have it written into a condition: on the unrepaired tree
+   such cases must sit in routers that split by group membership (a restriction of the inputs);
+   on a tree with the repair ([has_group_case_by_name]) it is enough that they are has_group
+   cases, which is the invariant of the representation ([flow_wf]: only has_group cases have
+   [k_group]) and no restriction at all. *)
+Definition case_ok (k : rcase) : bool :=
+  match k_group k with
+  | None => true
+  | Some _ => has_group_case_by_name && str_eqb (k_type k) has_group_type
+  end.
 Definition router_ok (r : srouter) : bool :=
-  str_eqb (sw_operand r) groups_operand
-  || forallb (fun k => match k_group k with None => true | Some _ => false end) (sw_cases r).
+  str_eqb (sw_operand r) groups_operand || forallb case_ok (sw_cases r).
 Definition node_ok (n : node) : bool :=
   match n_kind n with NRouter _ r => router_ok r | _ => true end.
 Definition flow_ok (nodes : list node) : bool := forallb node_ok nodes.
+
+(* invariant of the representation: [k_group] is the first argument of a has_group case *)
+Definition case_wf (k : rcase) : bool :=
+  match k_group k with None => true | Some _ => str_eqb (k_type k) has_group_type end.
+Definition node_wf (n : node) : bool :=
+  match n_kind n with NRouter _ r => forallb case_wf (sw_cases r) | _ => true end.
+Definition flow_wf (nodes : list node) : bool := forallb node_wf nodes.
 
 End ToRows.
 
@@ -631,12 +654,12 @@ Arguments opt_uuid {U}. Arguments PL {U}. Arguments PLL {U}. Arguments no_cond {
 Arguments tid_eqb {U}. Arguments tid_short {U}. Arguments action_short {U}. Arguments action_fields {U}.
 Arguments case_arg0 {U}. Arguments case_arg1 {U}. Arguments short_name {U}. Arguments router_kwargs {U}.
 Arguments node_kwargs {U}. Arguments node_base_pay {U}. Arguments action_rows {U}. Arguments initiate_row_models {U}.
-Arguments last_row_id {U}. Arguments case_cond {U}. Arguments mem_u {U}. Arguments all_categories {U}.
+Arguments last_row_id {U}. Arguments cond_arg {U}. Arguments case_cond {U}. Arguments mem_u {U}. Arguments all_categories {U}.
 Arguments category_pairs {U}. Arguments case_pairs {U}. Arguments noresp_pairs {U}. Arguments switch_pairs {U}. Arguments exit_edge_pairs {U}. Arguments find_node {U}.
 Arguments prepend_edge {U}. Arguments goto_row {U}. Arguments step {U}. Arguments visit {U}. Arguments start_edge {U}.
 Arguments state0 {U}. Arguments to_rows_tmp {U}. Arguments mget {U}. Arguments mset {U}. Arguments build_map {U}.
 Arguments remap_edge {U}. Arguments remap_row {U}. Arguments idmap0 {U}. Arguments to_rows {U}. Arguments edge_cells {U}.
 Arguments edges_cells {U}. Arguments row_cells {U}. Arguments strip_cells {U}. Arguments export {U}. Arguments close_cell {U}.
 Arguments close_cells {U}. Arguments close_sheet {U}. Arguments export_strip {U}. Arguments router_ok {U}.
-Arguments node_ok {U}. Arguments flow_ok {U}.
+Arguments node_ok {U}. Arguments flow_ok {U}. Arguments case_ok {U}. Arguments case_wf {U}. Arguments node_wf {U}. Arguments flow_wf {U}.
 Arguments split_save_name {U}. Arguments has_free_cases {U}. Arguments cond_blank {U}. Arguments loose_row {U}. Arguments step_fx {U}.
